@@ -505,6 +505,9 @@ def exactsolve(A: LinearOperator, B: torch.Tensor,
     # M: (*BM, na, na)
     if E is None:
         Amatrix = A.fullmatrix()  # (*BA, na, na)
+        if B.ndim < Amatrix.ndim:
+            # make sure B is not interpreted as batched vectors by torch.linalg.solve
+            B = B.reshape(*([1] * (Amatrix.ndim - B.ndim)), *B.shape)
         x = torch.linalg.solve(Amatrix, B)  # (*BAB, na, ncols)
     elif M is None:
         Amatrix = A.fullmatrix()
